@@ -125,3 +125,92 @@ pub fn run_engine<E: Engine>(e: E) -> ! {
 pub fn family(id: &str) -> &str {
     id.split('(').next().unwrap_or(id)
 }
+
+// ------------------------------------------------------------------------------------------
+// scale cases: byte images far beyond the small scope, each re-creatable from its label
+// ------------------------------------------------------------------------------------------
+
+/// Buffer lengths around every power of two up to the 16-bit boundary.
+pub fn buffer_ladder(thorough: bool) -> Vec<usize> {
+    let mut v: Vec<usize> = vec![100, 127, 128, 129, 130, 254, 255, 256, 257, 258, 259, 260, 264, 300, 511, 512, 513, 520];
+    if thorough {
+        v.extend([1023, 1024, 1025, 4095, 4096, 4097, 32767, 32768, 32769, 65534, 65535, 65536, 65537, 65538, 65539, 65540, 65544, 65552, 70000]);
+    }
+    v
+}
+
+pub struct ScaleCase {
+    pub label: String,
+    pub bytes: Vec<u8>,
+    /// the content the image was built from (None for constant fills)
+    pub value: Option<refmodel::Value>,
+    /// number of leading bytes that carry the value (reference extent)
+    pub extent: usize,
+    pub mask: Vec<bool>,
+}
+
+/// Images of small values in large buffers, of large values (container sizes from the scale ladder) in exact
+/// and roomy buffers, and constant fills, for one shape.
+pub fn scale_cases(d: &refmodel::Desc, thorough: bool) -> Vec<ScaleCase> {
+    use refmodel::values::{enum_values, scale_ladder, scaled_value, Limits};
+    let mut out = vec![];
+    let a = d.align();
+    let small = {
+        let avail = d.min_size() + 3 * a + 12;
+        let vals = enum_values(d, avail, &Limits::quick());
+        let mut picks = vec![];
+        if let Some(v) = vals.first() {
+            picks.push(v.clone());
+        }
+        if let Some(v) = vals.last() {
+            if vals.len() > 1 {
+                picks.push(v.clone());
+            }
+        }
+        picks
+    };
+    for b in buffer_ladder(thorough) {
+        for (vi, v) in small.iter().enumerate() {
+            for fill in [0xEEu8, 0x00] {
+                if let Ok(img) = refmodel::encode(d, v, b, fill) {
+                    out.push(ScaleCase { label: format!("small:B={}:vi={}:fill={:02x}", b, vi, fill), bytes: img.bytes, value: Some(v.clone()), extent: img.extent, mask: img.mask });
+                }
+            }
+        }
+        for byte in [0x00u8, 0x01, 0xFF] {
+            out.push(ScaleCase { label: format!("const:B={}:byte={:02x}", b, byte), bytes: vec![byte; b], value: None, extent: 0, mask: vec![] });
+        }
+    }
+    if d.is_sized() {
+        return out;
+    }
+    let flexy = format!("{:?}", d).contains("Flex");
+    for nn in scale_ladder(thorough) {
+        if flexy && nn > 4100 {
+            continue;
+        }
+        let v = match scaled_value(d, nn) {
+            Some(v) => v,
+            None => continue,
+        };
+        let need = match refmodel::encode(d, &v, nn * 64 + 4096, 0) {
+            Ok(i) => i.extent,
+            Err(_) => continue,
+        };
+        for slack in [0usize, 1, a, 2 * a + 3] {
+            if let Ok(img) = refmodel::encode(d, &v, need + slack, 0xEE) {
+                out.push(ScaleCase { label: format!("scaled:N={}:slack={}", nn, slack), bytes: img.bytes, value: Some(v.clone()), extent: img.extent, mask: img.mask });
+            }
+        }
+    }
+    out
+}
+
+pub fn scale_case_by_label(d: &refmodel::Desc, label: &str) -> Option<ScaleCase> {
+    for th in [false, true] {
+        if let Some(c) = scale_cases(d, th).into_iter().find(|c| c.label == label) {
+            return Some(c);
+        }
+    }
+    None
+}
